@@ -217,3 +217,15 @@ for _rc in (0, 1):
                                   encodes=["hypnotoad.cases.tokamak:TokamakEquilibrium.__init__"],
                                   desc="reverse_current / psi_divide_twopi / reverse_Bt act on psi2D, psi1D, the gfile psi scalars and fpol consistently: only signs and the 2*pi factor "
                                        "change (shared with C03)", bounds="psi2D 2x2, profiles of length 3, all values symbolic"))
+
+
+def _spacing_wiring(env):
+    import harness.c10 as m   # resolved at call time
+    return m.ob_spacing_wiring(env)
+
+
+OBLIGATIONS.append(Ob("per_leg_spacing_options_mirror", _spacing_wiring, tier="quick", family="descriptor mirror",
+                      desc="each divertor leg takes the target spacing options of its OWN leg name (inner/outer x lower/upper), X-point ends share the X-point options: "
+                           "exchanging lower and upper options mirrors the spacing (shared with C10)",
+                      encodes=["hypnotoad.core.equilibrium:EquilibriumRegion.getTargetParameter", "hypnotoad.core.equilibrium:EquilibriumRegion.getSpacings"],
+                      bounds="6 region name/kind combinations, all option values symbolic"))
